@@ -127,7 +127,7 @@ func anywayCase(k *engine.Case) {
 	finished := false
 	var picture []string
 poll:
-	for i := 0; i < 20000; i++ {
+	for i := 0; i < 8000; i++ {
 		select {
 		case <-done:
 			finished = true
